@@ -46,7 +46,7 @@ CATALOGUE = [
     "unknown-part-argument", "index-on-map-part", "key-on-list-part", "arity-too-few", "arity-too-many",
     "arity-unknown-keyword", "shape-scalar-for-multi", "shape-nonlist-for-varpos", "shape-nonlist-for-binop",
     "shape-nonmapping-for-varkw", "two-keys-condition", "two-keys-path", "missing-path", "missing-condition",
-    "non-mapping-condition", "binop-item-malformed",
+    "non-mapping-condition", "binop-item-malformed", "cast-not-mapping", "doc-items-not-strings",
 ]
 
 
@@ -144,6 +144,12 @@ def gen_a(r, klass):
         return place_path({r.choice(["path.first.length.dtype", "path.a.b.c", "path.length.first.all"]): pspec_parts})
     if klass == "unknown-part-type":
         return place_part({"type": r.choice(["foo", "map", "list", "dict_value", "MAP_VALUE", "", "mapvalue", 1, None])})
+    if klass == "cast-not-mapping":
+        return "rule", {"path": pspec_parts, "condition": ls, "cast": r.choice(["int", ["str", "int"], 1, True, [["str", "int"]], "str->int", 2.5])}
+    if klass == "doc-items-not-strings":
+        bad = r.choice([{"description": [1]}, {"description": {"a": "b"}}, {"examples": [None]}, ["ok", 2], {"description": "fine", "examples": [["x"]]},
+                        {"description": [["nested"]]}, {"examples": {"k": "v"}}, [None]])
+        return "rule", {"path": pspec_parts, "condition": ls, "doc": bad}
     if klass in ("unknown-cast-type", "unsupported-cast-pair"):
         if klass == "unknown-cast-type":
             cast = r.choice([{"foo": "int"}, {"str": "foo"}, {"string": "bool"}, {"str": "integer"}, {"STR": "int"}, {"str": "Bool"}, {1: "int"}, {"str": None}])
